@@ -20,7 +20,9 @@ EXPLANATION = (
     "expected 0 conversions; E1: arrived while one was installed, expected exactly 1). A call of the binarizer "
     "field increments the counters of its argument; branches on binarizer/flag are decided from the abstract "
     "state. At every sink (update of the Beta counters in _ThompsonSampling._fit_arm, on the bandit or on a "
-    "worker-local copy) each class must carry its expected count. Decides 'each observation is converted exactly "
+    "worker-local copy) each class must carry its expected count. (R14.3) on the training traces the decisions and "
+    "rewards handed to _get_binary_rewards stem from the same rows. (R14.2) no operation of the protocol reads an "
+    "attribute that no method, class body or assignment gives the receiver's class (AttributeError). Decides 'each observation is converted exactly "
     "as often as specified' for every history over the protocol; what a user's binarizer returns is not decided.")
 ASSUMPTIONS = [
     "loops over arms / cluster policies / rows execute at least once (empty collections are rejected earlier)",
@@ -209,6 +211,31 @@ def check(ctx):
         total_sinks += s
         total_states += st
         worlds += 1
+    # R14.3: conversion pairs each reward with its own decision
+    ctx.rule("R14.3", "the binarizer is applied to the decision and the reward of the same observation")
+    from .c20 import check_binarizer_pairing
+    check_binarizer_pairing(ctx, F, "R14.3")
+    # R14.2: every operation of the protocol can run: no read of an attribute the receiver's class cannot have
+    ctx.rule("R14.2", "no operation of a Thompson Sampling bandit reads an attribute that its implementor class never "
+                      "gets (such a read raises AttributeError, so the bandit with a binarizer cannot follow the "
+                      "history its pre-converted twin follows)")
+    n_ops = 0
+    for c in F.configs(lp=["ThompsonSampling"]):
+        for lab in OPS:
+            if lab not in F.entry_labels(c):
+                continue
+            root = F.trace(c, lab)
+            n_ops += 1
+            bad = [ev for ev, _ in walk(root) if ev.kind == "missing-attr"]
+            if not bad:
+                ctx.ok("R14.2", "%s runs without reading a missing attribute" % lab, construct="%s [%s]" % (lab, c.np),
+                       where="MAB." + lab.split("+")[0])
+            for ev in bad:
+                ctx.violate("R14.2", "%s under %s reads %s.%s" % (lab, c.np or "no neighbourhood policy", ev.a["cls"],
+                                                                  ev.a["name"]), ev.node, ev.fn,
+                            "no method, class attribute or assignment gives a %s the attribute `%s`: AttributeError "
+                            "[%s]" % (ev.a["cls"], ev.a["name"], c.name))
+    ctx.floor("R14.2", "Thompson Sampling operations scanned", n_ops, 60)
     ctx.floor("R14.1", "protocol worlds explored", worlds, 15)
     ctx.floor("R14.1", "sink events checked", total_sinks, 100)
     ctx.note("protocol exploration: %d worlds, %d abstract states, %d runs, %d sink events" %
